@@ -19,8 +19,9 @@ pub enum Family {
     Motif,
     Mobility,
     Jam,
+    Confront,
 }
-pub const FAMILIES: [Family; 14] = [Family::Setup, Family::Random, Family::Sparse, Family::TrapDense, Family::Goal, Family::Cage, Family::Library, Family::Blocked, Family::Edge, Family::PushPull, Family::TrapCluster, Family::Motif, Family::Mobility, Family::Jam];
+pub const FAMILIES: [Family; 15] = [Family::Setup, Family::Random, Family::Sparse, Family::TrapDense, Family::Goal, Family::Cage, Family::Library, Family::Blocked, Family::Edge, Family::PushPull, Family::TrapCluster, Family::Motif, Family::Mobility, Family::Jam, Family::Confront];
 impl Family {
     pub fn name(self) -> &'static str {
         match self {
@@ -38,6 +39,7 @@ impl Family {
             Family::Motif => "motif",
             Family::Mobility => "mobility",
             Family::Jam => "jam",
+            Family::Confront => "confront",
         }
     }
 }
@@ -584,6 +586,101 @@ fn motif_board(rng: &mut Rng) -> (Board, Side) {
     (b2, if rng.chance(0.85) { mover } else { mover.other() })
 }
 
+/// Confrontations at the boundary of "strictly stronger": an enemy piece with an own piece of
+/// (mostly) the same type beside it, a second own piece (mostly stronger) on another side of it,
+/// an enemy heavy piece within two squares, and the squares around them partly filled so that
+/// freezing, boxing-in and the only free square matter.  Anywhere on the board (edges and corners
+/// included), away from traps or not; meant to be expanded exhaustively for one turn.  Built for
+/// Gold to move and mapped through a random symmetry.
+fn confront_board(rng: &mut Rng) -> (Board, Side) {
+    let g = Side::Gold;
+    let sv = Side::Silver;
+    let mut b = EMPTY;
+    let put = |b: &mut Board, sq: Sq, s: Side, k: Kind| {
+        if b[sq.0 as usize].is_none() {
+            b[sq.0 as usize] = Some((s, k));
+        }
+    };
+    let stronger = |rng: &mut Rng, k: Kind| -> Kind {
+        let i = k as usize;
+        if i >= 5 { Kind::E } else { KINDS[i + 1 + rng.below(5 - i)] }
+    };
+    let v = Sq(rng.below(64) as u8);
+    let nb: Vec<Sq> = v.neighbours().collect();
+    let x = nb[rng.below(nb.len())];
+    // the second own piece: opposite the first one (a line) half of the time
+    let opposite = nb.iter().copied().find(|u| *u != x && (u.file() == x.file() || u.rank() == x.rank()));
+    let others: Vec<Sq> = nb.iter().copied().filter(|u| *u != x).collect();
+    let u = match opposite {
+        Some(o) if rng.chance(0.5) => o,
+        _ => others[rng.below(others.len())],
+    };
+    let t = KINDS[rng.weighted(&[1, 2, 2, 2, 3, 1])];
+    put(&mut b, v, sv, t);
+    let kx = if rng.chance(0.6) { t } else { KINDS[rng.below(6)] };
+    put(&mut b, x, g, kx);
+    let ku = if rng.chance(0.7) { stronger(rng, t) } else { KINDS[1 + rng.below(5)] };
+    put(&mut b, u, g, ku);
+    // an enemy heavy piece near the first own piece: straight ahead of it (two squares from
+    // where it stands, on the line through the enemy piece) or anywhere within two squares
+    let ahead = {
+        let (df, dr) = (x.file() as i8 - v.file() as i8, x.rank() as i8 - v.rank() as i8);
+        let (f, r) = (x.file() as i8 + 2 * df, x.rank() as i8 + 2 * dr);
+        if (0..8).contains(&f) && (1..=8).contains(&r) { Some(Sq::new(f as u8, r as u8)) } else { None }
+    };
+    let z = match ahead {
+        Some(a) if rng.chance(0.5) => Some(a),
+        _ => {
+            let near: Vec<Sq> = (0..64u8).map(Sq).filter(|q| {
+                let d = (q.file() as i8 - x.file() as i8).abs() + (q.rank() as i8 - x.rank() as i8).abs();
+                d >= 1 && d <= 2 && b[q.0 as usize].is_none()
+            }).collect();
+            if near.is_empty() { None } else { Some(near[rng.below(near.len())]) }
+        }
+    };
+    if let Some(z) = z {
+        let kz = if rng.chance(0.7) { stronger(rng, kx) } else { KINDS[1 + rng.below(5)] };
+        put(&mut b, z, sv, kz);
+    }
+    // partly fill what surrounds the three pieces
+    let density = [0.25, 0.45, 0.65][rng.below(3)];
+    for c in [v, x, u] {
+        for n in c.neighbours().collect::<Vec<_>>() {
+            if b[n.0 as usize].is_none() && rng.chance(density) {
+                let side = if rng.chance(0.5) { g } else { sv };
+                put(&mut b, n, side, KINDS[rng.weighted(&[3, 2, 2, 2, 1, 1])]);
+            }
+        }
+    }
+    // rabbits far away keep the game alive and give the mover a free step
+    if count(&b, g, Kind::R) == 0 {
+        place_random(&mut b, rng, g, Kind::R, |sq| (1..=6).contains(&sq.rank()));
+    }
+    if count(&b, sv, Kind::R) == 0 {
+        place_random(&mut b, rng, sv, Kind::R, |sq| (3..=8).contains(&sq.rank()));
+    }
+    for side in [g, sv] {
+        for k in KINDS {
+            while count(&b, side, k) > k.quota() {
+                // remove surplus pieces from the fill, never the three central ones if avoidable
+                let idx = (0..64usize).rev().find(|i| b[*i] == Some((side, k)) && ![v, x, u].iter().any(|c| c.0 as usize == *i)).or_else(|| (0..64usize).find(|i| b[*i] == Some((side, k))));
+                if let Some(i) = idx { b[i] = None; }
+            }
+        }
+    }
+    for f in 0..8u8 {
+        if b[Sq::new(f, 8).0 as usize] == Some((g, Kind::R)) { b[Sq::new(f, 8).0 as usize] = None; }
+        if b[Sq::new(f, 1).0 as usize] == Some((sv, Kind::R)) { b[Sq::new(f, 1).0 as usize] = None; }
+    }
+    if count(&b, g, Kind::R) == 0 { put(&mut b, Sq::new(7, 1), g, Kind::R); }
+    if count(&b, sv, Kind::R) == 0 { put(&mut b, Sq::new(7, 8), sv, Kind::R); }
+    let sym = rng.below(4) as u8;
+    let mut b2 = transform_board(&b, sym);
+    clean_traps(&mut b2);
+    let mover = if sym & 2 != 0 { sv } else { g };
+    (b2, if rng.chance(0.9) { mover } else { mover.other() })
+}
+
 /// Positions with as many legal first steps as a seeded hill-climb can find (full or nearly full
 /// material, spread out, strong pieces next to weaker enemy pieces with room to be pushed): the
 /// long-list end of the distribution, which random positions never reach.
@@ -749,6 +846,7 @@ pub fn generate(rng: &mut Rng, family: Family) -> Start {
         Family::Motif => motif_board(rng),
         Family::Mobility => (mobility_board(rng, side), side),
         Family::Jam => (jam_board(rng), side),
+        Family::Confront => confront_board(rng),
         Family::Library => {
             let text = LIBRARY[rng.below(LIBRARY.len())];
             let (b, s, _) = parse_diagram(text).expect("library diagram");
